@@ -207,6 +207,7 @@ type Focus struct {
 	intent  map[string]int8 // request id -> intended choice (0 = mixed)
 	gov     govFlow
 	planned map[string]int64 // planned power per validator while a block is being drawn
+	low     map[string]int64 // the same, counting planned unstakes only (a planned stake may be refused)
 	opened  []plannedReq     // requests opened in the block being drawn
 	used    map[string]bool  // (request, voter) pairs already voted in the block being drawn
 }
@@ -444,7 +445,7 @@ func (f *Focus) unstake(v *View) []txgen.Tx {
 		amt = cur + 1
 	}
 	o := f.effOpts(v)
-	after := cur - amt
+	after := f.low[r.Addr] - amt
 	if big.NewInt(after).Cmp(o.Min) < 0 || (f.W.P.Frankenstein > f.W.C.Height && after < 700000) || f.W.P.Maturity >= 100000 && after < 700000 {
 		// would drop below the minimum (now, or after a fork / governance change of the minimum)
 		if r.Addr == AnchorAddr(f.W) && f.excl(ExclLastEligible) {
@@ -458,6 +459,7 @@ func (f *Focus) unstake(v *View) []txgen.Tx {
 	tx.Tags = tags
 	if amt <= cur {
 		f.planned[r.Addr] = cur - amt
+		f.low[r.Addr] -= amt
 	}
 	return []txgen.Tx{tx}
 }
@@ -941,9 +943,10 @@ func (f *Focus) DrawBlock(v *View) []txgen.Tx {
 	if f.intent == nil {
 		f.intent = map[string]int8{}
 	}
-	f.planned = map[string]int64{}
+	f.planned, f.low = map[string]int64{}, map[string]int64{}
 	for a, r := range v.Vals {
 		f.planned[a] = r.Power
+		f.low[a] = r.Power
 	}
 	f.opened, f.used = nil, map[string]bool{}
 	var names []string
